@@ -581,13 +581,13 @@ class Interp:
     def variant_index(self, v, name):
         std = {'None': 0, 'Some': 1, 'Ok': 0, 'Err': 1, 'Ready': 0, 'Pending': 1,
                'Less': -1, 'Equal': 0, 'Greater': 1, 'Continue': 0, 'Break': 1,
-               'Occupied': 0, 'Vacant': 1, 'Left': 0, 'Right': 1}
+               'Occupied': 0, 'Vacant': 1, 'Left': 0, 'Right': 1, 'Full': 0, 'Closed': 1}
         ename = v.name if isinstance(v, Enum) else None
         if ename and ename.startswith('SelectOut'):
             if name == 'Disabled':
                 return int(ename[len('SelectOut'):])
             return int(name[1:])
-        if ename in ('Option', 'Result', 'Poll', 'Ordering', 'ControlFlow', 'Entry', None) and name in std:
+        if ename in ('Option', 'Result', 'Poll', 'Ordering', 'ControlFlow', 'Entry', 'TrySendError', None) and name in std:
             return std[name]
         ev = self.src.enum_variants(ename)
         if ev:
